@@ -4,7 +4,8 @@
    Proofs/CopySpec.v).  The transition system is Model/CopyFault.v: the visible-event
    acceptor of copy.go (Model/CopySpec.v) extended with fault events -- an error returned
    by dst.Exists [ExX], src.Fetch [SFX], dst.Push/PushReference before or after the content
-   was stored [PuX n ref stored], a user callback [Ev (CbFail k n)], an operation of the
+   was stored [PuX n ref stored], dst.Tag before or after the reference was set [TagX n set],
+   a user callback [Ev (CbFail k n)], an operation of the
    sequential prologue (Resolve / MapRoot / Predecessors, [ProX]) -- and cancellation of
    the call's context at any moment [Cancel].
    [faccepts g c ext d0 tr = Some fs]: tr is a run (complete or not: every prefix of a run
